@@ -6,6 +6,7 @@ from fractions import Fraction as F
 
 from ..lang.parser import parse_program, ParseError
 from ..lang.printer import program_str
+from .programs import declared_values
 from ..lang.ast import Program, program_variables, program_symbols, walk_stmts, expr_vars
 
 REPO = os.environ.get("POLAR_REPO", "/repo")
@@ -62,8 +63,14 @@ def instantiate(rng, prog):
         else:
             vals[name] = F(rng.randint(-20, 20), rng.choice([3, 7, 11])) or F(5, 7)
     inits = {}
+    declared = declared_values(prog)
     for v in program_variables(prog):
-        inits[v] = F(rng.randint(-15, 15), rng.choice([2, 3, 7])) or F(3, 7)
+        if v in declared and declared[v]:
+            inits[v] = rng.choice(declared[v])
+        else:
+            # stand-in for the symbolic initial value <v>0: never an integer / half-integer, so that it cannot be
+            # confused with a designed program constant
+            inits[v] = F(7 * rng.randint(-3, 3) + rng.choice([1, 2, 3, 4, 5, 6]), 7) + F(rng.choice([0, 1, 2]), 11)
     return vals, inits
 
 
